@@ -65,9 +65,12 @@
       theorem): inside a message the unprotected map is itself one level down.  Needed:
       `sign1_wire_nested_needs_depth2` — unprotected `{99: [[…[nil]…]]}` with 31 nested arrays makes
       the stand-alone bucket round trip, the library signs and encodes the message, and
-      `Sign1.unmarshal` refuses the bytes (nesting 33 > 32).  The encoder has no depth limit; the
-      decoder has `MaxNestedLevels` 32.  The protected bucket is a byte string parsed on its own, so
-      depth 1 suffices there.
+      `Sign1.unmarshal` refuses the bytes (nesting 33 > 32).  The decoder has `MaxNestedLevels`
+      32; the encoder of the unprotected bucket checks its fresh bytes with the same limit
+      (headers.go:256) but counted from the bucket's own map, not from the enclosing message, so
+      this bucket (map + 31 arrays = 32 levels) passes it — `C08.unprotected_depth_gate` shows
+      where that gate bites (32 arrays) and that the protected bucket has none.  The protected
+      bucket is a byte string parsed on its own, so depth 1 suffices there.
     * `UintOK` on the TOP-LEVEL values only (a value of an unsigned Go integer type is not
       negative; `C08.protected_bucket_roundtrip_needs_uintOK`).  No recursive `UintOKN` is needed:
       validation inspects the integer kind of a value only at the top level (labels 3, 16, 1);
@@ -296,12 +299,22 @@ theorem encodeBucket_N {d : Nat} {h : GoMap} (hf : NestedMapAt (d + 1) h) (prot 
     encodeBucket encCfg prot none h
       = some (if prot then encBstr (mapWireN h).bytes else (mapWireN h).bytes) := by
   have hok := C13.validate_labels h prot hv
-  obtain ⟨hep, -⟩ := mapWireN_ok encCfg hf hok hlen hd
+  obtain ⟨hep, hwf, hlim, -⟩ := mapWireN_ok encCfg hf hok hlen hd
+  -- the tags-forbidden well-formedness pass of `UnprotectedHeader.MarshalCBOR` (it starts at
+  -- depth 0, whatever depth `d` the bucket is later met at)
+  have hw := wellformedNoTags_bytes_at hwf (hlim false)
+  rw [mapWireN_bytes] at hw
   cases h with
   | nil => exact absurd rfl hne
   | cons e es =>
     have hv' : encCfg.validate (e :: es) prot = true := hv
-    simp only [encodeBucket, hv', Bool.not_true, Bool.false_eq_true, if_false, hep, mapWireN_bytes]
+    cases prot with
+    | true =>
+      simp only [encodeBucket, hv', Bool.not_true, Bool.false_eq_true, if_false, if_true, hep,
+        mapWireN_bytes]
+    | false =>
+      simp only [encodeBucket, hv', Bool.not_true, Bool.false_eq_true, if_false, if_true, hep,
+        mapWireN_bytes, hw]
 
 theorem sortPairs_one (x : Bytes × Bytes) : sortPairs [x] = [x] := by
   simp [sortPairs]
@@ -985,12 +998,14 @@ theorem exDeep_mpP : marshalProtected exDeep.h = .ok [0x43, 0xa1, 0x01, 0x26] :=
     validateHeaderParameters, validateLoop, normalizeLabel, wrap64, checkParam, lbl, encodePairs,
     encodeAny, encInt, encHead, encBstr, HW.shortest, headBytes, sortPairs, concatPairs]
 
+set_option maxRecDepth 8192 in
 theorem exDeep_mpU : marshalUnprotected exDeep.h = .ok exDeepU := by
   simp [marshalUnprotected, exDeep, exDeepU, GoVal.modelledPairs, GoVal.modelled,
     nestArr_modelled, encodeBucket,
     encCfg, validateHeaderParameters, validateLoop, normalizeLabel, wrap64, checkParam, lbl,
     encodePairs, nestArr_enc, encodeAny, encInt, encHead, HW.shortest, headBytes, sortPairs_one,
-    concatPairs]
+    concatPairs, wellformedNoTags, parseTop,
+    fuelFor, parseItem, parseItems, parsePairs, parseHead, maxNested, maxElems]
 
 /-- arrays nested beyond the limit are refused, whatever follows -/
 theorem parseItem_too_deep (t : Bool) (r : Bytes) : ∀ (n fuel d : Nat), d + n > maxNested →
@@ -1073,6 +1088,53 @@ theorem sign1_wire_nested_needs_depth2 :
 
 end NestedBuckets
 
+namespace C08
+open NestedBuckets NestedExamples
+
+set_option maxRecDepth 8192 in
+/-- The depth face of the gate in `UnprotectedHeader.MarshalCBOR` (headers.go:256, the
+    tags-forbidden well-formedness pass on the freshly encoded bytes; general statement:
+    `C08.fresh_unprotected_bucket_wellformed`).  Unprotected `{99: [[…[nil]…]]}`: with 31 nested
+    arrays (32 levels with the map) it is encoded, with 32 it is refused; the protected bucket has
+    no such gate and still encodes 32; and the gate is run by every `UnprotectedHeader` on its own
+    bytes, so a countersignature whose unprotected bucket is too deep makes the encoding fail also
+    where no enclosing unprotected bucket exists (here: stored in a protected bucket) — which is
+    why the model has the check in `encodeBucket` and not only in `marshalUnprotected`. -/
+theorem unprotected_depth_gate :
+    marshalUnprotected exDeep.h = .ok exDeepU ∧
+    marshalUnprotected { u := [(lbl 99, nestArr 32)] } = .err .other ∧
+    marshalProtected { p := [(lbl 99, nestArr 32)] }
+      = .ok (0x58 :: 0x24 :: 0xa1 :: 0x18 :: 0x63 :: (List.replicate 32 0x81 ++ [0xf6])) ∧
+    marshalProtected { p := [(lbl 99, .csig none [] none [(lbl 99, nestArr 31)] (some [1]))] }
+      = .ok (0x58 :: 0x2a :: 0xa1 :: 0x18 :: 0x63 :: 0x83 :: 0x40 :: (exDeepU ++ [0x41, 0x01])) ∧
+    marshalProtected { p := [(lbl 99, .csig none [] none [(lbl 99, nestArr 32)] (some [1]))] }
+      = .err .other := by
+  have hiv : ∀ u : GoMap, ensureIV [] u = true := by
+    intro u
+    simp [ensureIV, hasLabel, lookupLabel, GoMap.lookup, lbl, normalizeLabel, wrap64, GoVal.keyEq]
+  refine ⟨exDeep_mpU, ?_, ?_, ?_, ?_⟩
+  · simp [marshalUnprotected, GoVal.modelledPairs, GoVal.modelled, nestArr_modelled, encodeBucket,
+      encCfg, validateHeaderParameters, validateLoop, normalizeLabel, wrap64, checkParam, lbl,
+      encodePairs, nestArr_enc, encodeAny, encInt, encHead, HW.shortest, headBytes, sortPairs_one,
+      concatPairs, wellformedNoTags, parseTop, fuelFor, parseItem, parseItems, parsePairs,
+      parseHead, maxNested, maxElems]
+  · simp [marshalProtected, GoVal.modelledPairs, GoVal.modelled, nestArr_modelled, encodeBucket,
+      encCfg, validateHeaderParameters, validateLoop, normalizeLabel, wrap64, checkParam, lbl,
+      encodePairs, nestArr_enc, encodeAny, encInt, encHead, encBstr, HW.shortest, headBytes,
+      sortPairs_one, concatPairs]
+  · simp [marshalProtected, GoVal.modelledPairs, GoVal.modelled, nestArr_modelled, encodeBucket,
+      encCfg, hiv, validateHeaderParameters, validateLoop, normalizeLabel, wrap64, checkParam, lbl,
+      encodePairs, nestArr_enc, encodeAny, encInt, encHead, encBstr, HW.shortest, headBytes,
+      sortPairs_one, concatPairs, exDeepU, wellformedNoTags, parseTop, fuelFor, parseItem,
+      parseItems, parsePairs, parseHead, maxNested, maxElems]
+  · simp [marshalProtected, GoVal.modelledPairs, GoVal.modelled, nestArr_modelled, encodeBucket,
+      encCfg, hiv, validateHeaderParameters, validateLoop, normalizeLabel, wrap64, checkParam, lbl,
+      encodePairs, nestArr_enc, encodeAny, encInt, encHead, HW.shortest, headBytes,
+      sortPairs_one, concatPairs, wellformedNoTags, parseTop, fuelFor, parseItem,
+      parseItems, parsePairs, parseHead, maxNested, maxElems]
+
+end C08
+
 /-! ## non-vacuity -/
 
 namespace C01
@@ -1131,7 +1193,8 @@ theorem exNest_mpU : marshalUnprotected exNest.h = .ok exNestU := by
   simp [marshalUnprotected, exNest, exNestU, GoVal.modelledPairs, GoVal.modelled, encodeBucket,
     encCfg, validateHeaderParameters, validateLoop, normalizeLabel, wrap64, checkParam, lbl,
     encodePairs, encodeAny, encInt, encTstr, encHead, HW.shortest, headBytes, sortPairs,
-    concatPairs, List.mergeSort, List.MergeSort.Internal.splitInTwo, bytesLe, bytesLt]
+    concatPairs, List.mergeSort, List.MergeSort.Internal.splitInTwo, bytesLe, bytesLt,
+    wellformedNoTags, parseTop, fuelFor, parseItem, parsePairs, parseHead, maxNested, maxElems]
 
 theorem exNest_det : detBstr exNestP = .ok exNestP := by
   simp [exNestP, detBstr, parseTop, parseItem, fuelFor, parseHead]
